@@ -87,7 +87,20 @@ type Specs struct {
 	GhostList  []string
 	Axioms     []*Axiom
 	GlobalInvs []*Axiom
+	Shapes     []*Shape
 	Files      []string
+}
+
+// Shape pins the field names and types of a struct whose gob encoding is part of the on-disk format
+// (gob matches fields by name): a type-level obligation decided without a solver.
+type Shape struct {
+	Type    string
+	PkgPath string
+	Fields  [][2]string // name, type as written
+	Tags    []string
+	Src     string
+	File    string
+	Line    int
 }
 
 func NewSpecs() *Specs {
@@ -358,6 +371,34 @@ func (sp *Specs) LoadSpecFile(path string, pkgPath string, external bool) error 
 			}
 			sp.Ghosts[f[0]] = &GhostVar{Name: f[0], PkgPath: pkgPath, Type: ty}
 			sp.GhostList = append(sp.GhostList, f[0])
+		case "shape":
+			// shape [tags] TypeName: Field type; Field type; ...
+			cur = nil
+			r := rest
+			var tags []string
+			if m := reTags.FindStringSubmatch(r); m != nil {
+				for _, t := range strings.Split(m[1], ",") {
+					tags = append(tags, strings.TrimSpace(t))
+				}
+				r = r[len(m[0]):]
+			}
+			k := strings.Index(r, ":")
+			if k < 0 {
+				return fail(fmt.Errorf("shape TypeName: Field type; ..."))
+			}
+			sh := &Shape{Type: strings.TrimSpace(r[:k]), PkgPath: pkgPath, Tags: tags, Src: l, File: path, Line: ln}
+			for _, f := range strings.Split(r[k+1:], ";") {
+				f = strings.TrimSpace(f)
+				if f == "" {
+					continue
+				}
+				p := strings.SplitN(f, " ", 2)
+				if len(p) != 2 {
+					return fail(fmt.Errorf("shape field %q needs a type", f))
+				}
+				sh.Fields = append(sh.Fields, [2]string{p[0], strings.TrimSpace(p[1])})
+			}
+			sp.Shapes = append(sp.Shapes, sh)
 		case "globalinv":
 			// globalinv name: expr — a fact about package-level variables that is ASSUMED at the entry of every
 			// function of this package under contract (listed in the evidence); it is not proved.
